@@ -131,7 +131,7 @@ R3_SITES = [
     # (file, function, generated signature, condition regex)
     ("yaep.c", "yaep_create_grammar", "static struct grammar *verif_unwind_create_grammar (void)", r"if \(setjmp \(error_longjump_buff\) != 0\)"),
     ("yaep.c", "yaep_read_grammar", "static int verif_unwind_read_grammar (int code)", r"if \(\(code = setjmp \(error_longjump_buff\)\) != 0\)"),
-    ("yaep.c", "yaep_parse", "static int verif_unwind_parse (int code, int tok_init_p, int parse_init_p)", r"if \(\(code = setjmp \(error_longjump_buff\)\) != 0\)"),
+    ("yaep.c", "yaep_parse", "static int verif_unwind_parse (int code, int tok_init_p, int parse_init_p, int saved_one_parse_p)", r"if \(\(code = setjmp \(error_longjump_buff\)\) != 0\)"),
     ("sgramm.y", "set_sgrammar", "static int verif_unwind_set_sgrammar (int err_code)", r"if \(\((?:err_)?code = setjmp \(error_longjump_buff\)\) != 0\)"),
 ]
 
